@@ -45,8 +45,13 @@ SupportedAlgs == {"sha256", "sha384", "sha512"}
 Cases == {"lower", "upper", "mixed"}
 \* good = the value is the digest of the peer's certificate under alg, written in the
 \* given letter case (i.e. it matches when compared case-insensitively);
-\* ~good = one hex digit differs.
-Fp == [alg : Algs, good : BOOLEAN, case : Cases]
+\* ~good = one hex digit differs.  ncase = letter case in which the NAME of the hash is
+\* signalled ("sha-256" / "SHA-256" / "Sha-256"); hash names are case-insensitive, so
+\* neither case nor ncase plays a role in the policy.
+Fp == [alg : Algs, good : BOOLEAN, case : Cases, ncase : Cases]
+\* name case follows value case (24 entries) / additionally every name case with a lower-case value (40)
+FpDiag == {f \in Fp : f.ncase = f.case}
+FpLite == {f \in Fp : f.ncase = f.case \/ f.case = "lower"}
 
 Rng(f) == {f[i] : i \in DOMAIN f}
 
@@ -88,16 +93,20 @@ ShouldConnect(c, s) ==
 
 Roles == {[a |-> "client", b |-> "server"], [a |-> "server", b |-> "client"]}
 
-FpUpTo(k) == UNION {[1..m -> Fp] : m \in 1..k}
-FpUpTo1 == FpUpTo(1)
-FpUpTo2 == FpUpTo(2)
-FpUpTo3 == FpUpTo(3)
-G(alg, case) == [alg |-> alg, good |-> TRUE, case |-> case]
-B(alg, case) == [alg |-> alg, good |-> FALSE, case |-> case]
+\* (no definition enumerates [1..3 -> Fp]: TLC evaluates constant definitions at startup)
+FpUpTo(k, S) == UNION {[1..m -> S] : m \in 1..k}
+FpUpTo2Lite == FpUpTo(2, FpLite)     \* 1 640 lists
+FpUpTo2Full == FpUpTo(2, Fp)         \* 5 256 lists
+FpUpTo3Diag == FpUpTo(3, FpDiag)     \* 14 424 lists
+GN(alg, case, ncase) == [alg |-> alg, good |-> TRUE, case |-> case, ncase |-> ncase]
+BN(alg, case, ncase) == [alg |-> alg, good |-> FALSE, case |-> case, ncase |-> ncase]
+G(alg, case) == GN(alg, case, "lower")
+B(alg, case) == BN(alg, case, "lower")
 \* representative lists: accepted, rejected, unsupported only, mixed good/bad, good + unsupported
 FpRep == { <<G("sha256", "upper")>>, <<B("sha256", "lower")>>, <<B("unsupported", "upper")>>,
            <<G("sha384", "mixed"), B("sha512", "upper")>>,
-           <<B("unsupported", "lower"), G("sha512", "lower")>> }
+           <<B("unsupported", "lower"), G("sha512", "lower")>>,
+           <<GN("sha256", "lower", "upper")>>, <<GN("sha512", "upper", "mixed"), BN("sha256", "lower", "upper")>> }
 FpOne == { <<G("sha256", "upper")>> }
 FpRep2 == { <<G("sha256", "upper")>>, <<B("sha384", "mixed")>> }
 
@@ -276,14 +285,24 @@ WitnessNoDeliveryToHalfOpen ==
   ~(act.op = "transit" /\ act.res = "discarded" /\ ~act.tam /\ state[act.to] = "failed")
 WitnessNoProfileMismatchFails ==
   ~(\E s \in Sides : state[s] = "failed" /\ cfg.hs /\ PolicyA(cfg.fps[s]))
+\* a hash named in upper/mixed case counts as supported: it connects when good and makes the list fail when bad
+WitnessNoUpperNameConnects ==
+  ~(\E s \in Sides : /\ state[s] = "connected"
+                     /\ \E i \in DOMAIN cfg.fps[s] : IsSupported(cfg.fps[s][i]) /\ cfg.fps[s][i].ncase # "lower")
+WitnessNoUpperNameBadFails ==
+  ~(\E s \in Sides : /\ state[s] = "failed" /\ cfg.hs /\ CommonProfile(cfg.profs.a, cfg.profs.b)
+                     /\ \E i \in DOMAIN cfg.fps[s] : /\ IsSupported(cfg.fps[s][i]) /\ ~cfg.fps[s][i].good
+                                                      /\ cfg.fps[s][i].ncase # "lower"
+                     /\ \A i \in DOMAIN cfg.fps[s] : cfg.fps[s][i].ncase = "lower" => cfg.fps[s][i].good)
 
 \* All witnesses in one run: the invariant WitnessCollect is always TRUE and records in TLC
 \* registers which witnesses were seen; POSTCONDITION WitnessPost demands all of them.
 WitnessList == << ~WitnessNeverBothConnected, ~WitnessNothingDelivered, ~WitnessNoTamperDiscard,
                   ~WitnessNoMixedListFails, ~WitnessNoUnsupportedIgnored, ~WitnessNoUnsupportedOnlyFails,
-                  ~WitnessNoDeliveryToHalfOpen, ~WitnessNoProfileMismatchFails >>
-WitnessCollect == \A i \in 1..8 : WitnessList[i] => TLCSet(100 + i, TRUE)
-WitnessInit == \A i \in 1..8 : TLCSet(100 + i, FALSE)
+                  ~WitnessNoDeliveryToHalfOpen, ~WitnessNoProfileMismatchFails,
+                  ~WitnessNoUpperNameConnects, ~WitnessNoUpperNameBadFails >>
+WitnessCollect == \A i \in 1..10 : WitnessList[i] => TLCSet(100 + i, TRUE)
+WitnessInit == \A i \in 1..10 : TLCSet(100 + i, FALSE)
 WInit == WitnessInit /\ Init
-WitnessPost == \A i \in 1..8 : (TLCGet(100 + i) = TRUE) \/ PrintT(<<"WITNESS-MISSING", i>>) = FALSE
+WitnessPost == \A i \in 1..10 : (TLCGet(100 + i) = TRUE) \/ PrintT(<<"WITNESS-MISSING", i>>) = FALSE
 =============================================================================
